@@ -203,6 +203,20 @@ Theorem C03_nan_inert : forall d rows keys ps keys' ps' q,
 Proof. exact RtreeProofs.C03_nan_inert. Qed.
 Print Assumptions C03_nan_inert.
 
+(* ---- the explicit fuel of the model's loops is enough: the while-loops of
+   _start_index / _stop_index / _maybe_intersects_ranges terminate within
+   tree-length iterations, and more fuel changes nothing ---- *)
+Theorem C03_fuel_suffices : forall d rows keys ps q,
+  1 <= d -> Forall (wf_box d) rows -> Permutation keys (seq 0 (length rows)) ->
+  length q = 2 * d -> rows <> [] ->
+  let T := build d rows keys ps in
+  (forall v fuel, v < tree_len T -> tree_len T <= fuel ->
+     start_index_f T fuel v = start_index T v /\ stop_index_f T fuel v = stop_index T v) /\
+  (forall fuel, tree_len T <= fuel ->
+     ranges_loop T fuel q [0] [] [] = maybe_intersects_ranges T q).
+Proof. exact RtreeProofs.C03_fuel_suffices. Qed.
+Print Assumptions C03_fuel_suffices.
+
 (* ---- the hypothesis min <= max is needed: a reversed "box" is reported by
    intersects although it does not satisfy the overlap inequalities ---- *)
 Example ex_reversed_row_needed :
